@@ -41,8 +41,16 @@ func genWQ(g *genCtx) {
 	for t := 0; t < nCases; t++ {
 		g.newCase("profile=" + profile)
 		r := g.rng
-		if (profile == "C05" || profile == "C16") && t%2 == 1 {
+		if (profile == "C05" || profile == "C16") && t%4 == 1 {
 			genAdjustStorm(g, r, profile)
+			continue
+		}
+		if profile == "C19" && t%5 == 2 {
+			genStopBreakStorm(g, r)
+			continue
+		}
+		if (profile == "C05" || profile == "C16") && t%4 == 3 {
+			genSetPrioStorm(g, r)
 			continue
 		}
 		W, L := r.rangeIn(1, maxW), r.rangeIn(1, maxL)
@@ -118,6 +126,13 @@ func genWQ(g *genCtx) {
 					g.op("brk")
 				}
 				stopped = true
+			case x < 100 && profile == "C19" && stopped && r.chance(1, 2):
+				// Stop and Break may be called at any time — also after one another
+				if r.chance(2, 3) {
+					g.op("brk")
+				} else {
+					g.op("stop")
+				}
 			default:
 				g.op("obs")
 			}
@@ -138,6 +153,70 @@ func genWQ(g *genCtx) {
 		}
 		g.op("final")
 	}
+}
+
+// genStopBreakStorm: busy workers and a backlog; Stop, then (with the dispatcher handing the backlog over) Break, or the
+// other way round, or either of them twice; then everything is released.  After Stop the backlog runs; a later Break skips
+// what has not been handed over yet.
+func genStopBreakStorm(g *genCtx, r *rng) {
+	W := r.rangeIn(1, 2)
+	L := r.rangeIn(3, 6)
+	g.op("new W=%d L=%d", W, L)
+	n := 0
+	for i := 0; i < 2*W+r.rangeIn(2, L); i++ {
+		g.op("enq prio=%d name=%d adj=0", r.rangeIn(1, 3), n)
+		n++
+	}
+	seqs := [][]string{{"stop", "brk"}, {"stop", "rel pick=0 err=0", "brk"}, {"brk", "stop"}, {"stop", "stop"}, {"brk", "brk"}, {"stop", "brk", "stop"}}
+	for _, op := range seqs[r.intn(len(seqs))] {
+		g.op("%s", op)
+	}
+	if r.chance(1, 2) {
+		g.op("enq prio=1 name=%d adj=0", n) // submitted afterwards: never runs
+		n++
+	}
+	for i := 0; i < n+2; i++ {
+		g.op("rel pick=0 err=0")
+	}
+	g.op("final")
+}
+
+// genSetPrioStorm: one worker, several waiting items WITHOUT adjust functions (nothing re-orders the queue behind
+// SetPriority's back); SetPriority moves items up and down — the head of the queue included — and every dispatch that
+// follows must honour the new priorities.
+func genSetPrioStorm(g *genCtx, r *rng) {
+	L := r.rangeIn(3, 6)
+	g.op("new W=1 L=%d", L)
+	n := 0
+	g.op("enq prio=1 name=%d adj=0", n) // runs
+	n++
+	g.op("enq prio=1 name=%d adj=0", n) // handed to the worker pool
+	n++
+	waiting := []int{}
+	base := r.rangeIn(1, 3)
+	for i := 0; i < L; i++ {
+		g.op("enq prio=%d name=%d adj=0", base+r.intn(3), n)
+		waiting = append(waiting, n)
+		n++
+	}
+	for round := 0; round < r.rangeIn(2, 5); round++ {
+		for i, k := 0, r.rangeIn(1, 3); i < k; i++ {
+			// demote or promote; the first waiting items are the likely head of the queue
+			id := waiting[r.intn(len(waiting))]
+			if r.chance(1, 2) {
+				id = waiting[r.intn(2)%len(waiting)]
+			}
+			g.op("setprio id=%d p=%d", id, r.rangeIn(0, 9))
+		}
+		g.op("rel pick=0 err=0")
+		if len(waiting) > 1 {
+			waiting = waiting[1:] // bookkeeping only roughly right: ids that have started make setprio answer an error, which is fine
+		}
+	}
+	for i := 0; i < n+2; i++ {
+		g.op("rel pick=0 err=0")
+	}
+	g.op("final")
 }
 
 // genAdjustStorm: one worker, a queue of 5-7 waiting items most of which carry adjust functions; several adjust values change
